@@ -206,6 +206,12 @@ def analyse(run: Run, progs: list[dict], results: list[dict], tier: str,
                           f"{r['id']}: generate_code_for_partition fails on rank {c['rank']}'s "
                           f"partition: {c['exc']}: {c['msg']}", record={"prog": p},
                           observed=c, sig=dict(sig_of(p, "codegen"), exc=c["exc"]))
+        for x in r.get("reexec", []):
+            run.violation(f"{r['id']}:reexec:{x['rank']}:{x['clause']}",
+                          f"{r['id']}: {x['what']}", record={"prog": p}, observed=x,
+                          sig=sig_of(p, x["clause"]))
+        if "reexec" in r:
+            run.add("programs_reexecuted_3x_on_one_partition_object")
         for x in r.get("runs", []):
             if x.get("hang"):
                 raise MachineryError(f"{r['id']}: {x['hang']}")
